@@ -197,6 +197,27 @@ def run_model(cfg, mode, lines, timeout=1800):
     return out
 
 
+def run_raw(mode, lines, timeout=1800):
+    """the extracted cell-level vector model (rawrun), sharded 16-way"""
+    exe = '%s/ocaml/rawrun' % CACHE
+    nsh = 16
+    chunks = [lines[k::nsh] for k in range(nsh)]
+
+    def one(ch):
+        if not ch:
+            return []
+        rc, out = _run_proc('ulimit -s unlimited 2>/dev/null || ulimit -s 4000000 2>/dev/null; %s %s' % (exe, mode), ch, timeout)
+        if len(out) < len(ch):
+            out = out + ['MODEL-CRASH %d' % rc] * (len(ch) - len(out))
+        return out
+    with ThreadPoolExecutor(max_workers=16) as ex:
+        parts = list(ex.map(one, chunks))
+    res = [None] * len(lines)
+    for k, part in enumerate(parts):
+        res[k::nsh] = part
+    return res
+
+
 def run_matrix(lines, cfgs, modes, model=True, shards=1):
     """Run lines on impl (and model) for every cfg x mode, in parallel.
     Returns (impl[(cfg,mode)] -> list, model[(cfg,mode)] -> list)."""
